@@ -73,7 +73,10 @@ def build_history(rng, pv, codec, length, unknown_ids, unhandled):
                 continue
             name = rng.choice(unhandled)
             if name == 'cb_chat':
-                vals = {'json': '{"text":"%s"}' % ('h' * rng.randrange(40)),
+                # (chat components may be far longer than ordinary strings)
+                vals = {'json': '{"text":"%s"}' % ('h' * (
+                    rng.choice((33000, 70000)) if rng.random() < 0.1
+                    else rng.randrange(40))),
                         'position': rng.randrange(3),
                         'sender': '00000000-0000-0000-0000-000000000001'}
             else:
@@ -176,7 +179,8 @@ def conversation(run, pv, rng, length, threshold, abrupt, label,
                 buf = bytearray()
                 if rng.random() < 0.3:
                     time.sleep(0.002)
-        did, dp = codec.encode('play_disconnect', {'reason': '{"text":"bye"}'})
+        did, dp = codec.encode('play_disconnect', {'reason': '{"text":"%s"}' % (
+            'bye' if label % 5 else 'b' * 40000)})
         buf += io.encode_frame(did, dp)
         if silent_gap:
             # a slow link: the stream pauses *inside* a frame for a long time
@@ -439,6 +443,84 @@ def reset_mid_batch(run, pv, rng, idx):
             pc.safe_disconnect(conn)
 
 
+def client_leaves_mid_write(run, pv, rng, idx):
+    """The client ends the session itself, from an outgoing listener, right
+    after one of its keep-alive answers has been written ("leave once my
+    reply is on the wire"): every keep-alive received so far must still be
+    answered exactly once, in order, and the session must end cleanly."""
+    from minecraft.networking.packets import serverbound
+    codec = codec_for(pv)
+    n_ka = rng.randrange(2, 9)
+    k = rng.randrange(1, n_ka + 1)          # leave after the k-th answer
+    state = {'ids': []}
+
+    def handler(io):
+        if scripts.read_handshake(io) is None:
+            return
+        scripts.login_offline(io, pv, rng.choice((None, 0, 64)), codec)
+        buf = bytearray()
+        for i in range(n_ka):
+            buf += io.encode_frame(*codec.encode('cb_keep_alive',
+                                                 {'id': 100 + i}))
+        io.send_raw(bytes(buf))                  # one burst = one read batch
+        for fr in io.drain(8.0):
+            nm, vals = codec.decode('play', fr[0], fr[1])
+            state['ids'].append(vals['id'] if nm == 'sb_keep_alive'
+                                else '<%s>' % nm)
+    server = mcserver.Server(handler)
+    rec = pc.Recorder()
+    w = {'pv': pv, 'directed': 'client-leaves-mid-write', 'keep_alives': n_ka,
+         'leaves_after_answer': k}
+    conn = None
+    try:
+        conn = pc.make_connection(server.port, rec, allowed_versions={pv})
+        seen = []
+
+        def leave(packet):
+            seen.append(1)
+            if len(seen) == k:
+                conn.disconnect()
+        conn.register_packet_listener(leave, serverbound.play.KeepAlivePacket,
+                                      outgoing=True)
+        conn.connect()
+        if not pc.wait_idle(conn, 20.0):
+            return 'inconclusive', 'threads alive: ' + pc.dump_threads()
+        server.join(10.0)
+        if [e for e in server.errors if e[1] == 'script']:
+            return 'inconclusive', 'server script: %r' % (server.errors[:1],)
+        run.count('directed.client_leaves_mid_write')
+        if [e for e in server.errors if e[1] == 'frame']:
+            run.violation('play/malformed-serverbound', 'client sent a frame '
+                          'the reference parser rejects', dict(
+                              w, error=server.errors[0][2]))
+            return 'done', w
+        # all n_ka keep-alives arrived in one burst; whether the client had
+        # *read* all of them before it left is up to its batching, so the
+        # answers must be a duplicate-free in-order prefix of at least k
+        want = [100 + i for i in range(n_ka)]
+        got = state['ids']
+        if got != want[:len(got)] or len(got) < k:
+            run.violation('play/echo-sequence/%s' % (
+                'duplicated/extra' if len(set(map(str, got))) != len(got)
+                else 'lost' if len(got) < k else 'altered/reordered'),
+                'serverbound frames differ from the echo model (each keep-'
+                'alive answered once, in order) when the client leaves from '
+                'an outgoing listener', dict(w, got=got[:12],
+                                             expected_prefix_of=want))
+        if rec.exceptions:
+            run.violation('play/client-leave-reports-error', 'the client '
+                          'ended the session from a listener and an error was '
+                          'reported', dict(w, exc=repr(rec.exceptions[:1])))
+        elif rec.exits != 1:
+            run.violation('play/exit-callback-count/other', 'exit callback ran'
+                          ' %d times after the client left' % rec.exits, w)
+        return 'done', w
+    finally:
+        server.stop()
+        if conn is not None:
+            pc.safe_disconnect(conn)
+
+
 def run(run):
     import minecraft
     thorough = run.tier == 'thorough'
@@ -516,6 +598,18 @@ def run(run):
         run.case(('reset-mid-batch', i))
         if outcome != 'done':
             run.inconclusive_because('reset-mid-batch %d: %s' % (i, info))
+    for i in range(80 if thorough else 8):
+        if not run.mine(i):
+            continue
+        pv = rng.choice((47, 340, 578, 757))
+        for attempt in range(3):
+            outcome, info = client_leaves_mid_write(run, pv, rng, i)
+            if outcome == 'done':
+                break
+        run.case(('client-leaves', i))
+        if outcome != 'done':
+            run.inconclusive_because('client-leaves %d: %s' % (i, info))
+    run.require('directed.client_leaves_mid_write', 2)
     run.require('directed.reset_mid_batch', 2)
     run.require('conversations', 20)
     run.require('echoes_seen', 50)
